@@ -60,13 +60,18 @@ func (l *IANURIFQDNOrIP) CheckApplies(c *x509.Certificate) bool {
 func (l *IANURIFQDNOrIP) Execute(c *x509.Certificate) *lint.LintResult {
 	for _, uri := range c.IANURIs {
 		if uri != "" {
-			parsedUrl, err := url.Parse(uri)
+			parsed, err := url.Parse(uri)
 			if err != nil {
 				return &lint.LintResult{Status: lint.Error}
 			}
-			host := parsedUrl.Host
-			if !util.AuthIsFQDNOrIP(host) {
-				return &lint.LintResult{Status: lint.Error}
+			if parsed.Opaque == "" {
+				// if Opaque is not empty, that means there is no authority, which means that the URI is vacuously OK
+				if parsed.Host == "" {
+					return &lint.LintResult{Status: lint.Error}
+				}
+				if !util.IsFQDNOrIP(parsed.Host) {
+					return &lint.LintResult{Status: lint.Error}
+				}
 			}
 		}
 	}
